@@ -706,6 +706,18 @@ func applyB(msg *pool.Message, m model, o op, step int, p *pool.Pool) (*pool.Mes
 			}
 		}
 		return msg, nm, nil
+	case "ResetToSelf":
+		// reset a message to (a tail of) its own option list: the input values live in the message's own value buffer
+		// (the list itself is copied - handing in a sub-slice of the destination's own backing array is not something
+		// the statement covers; the VALUES still point into the message's own value buffer)
+		own := append(message.Options(nil), msg.Options()...)
+		nm := m.clone()
+		if o.Len%2 == 1 && len(own) > 1 {
+			own = own[1:]
+			nm = nm[1:]
+		}
+		msg.ResetOptionsTo(own)
+		return msg, nm, nil
 	case "Clone":
 		c := p.AcquireMessage(context.Background())
 		if err := msg.Clone(c); err != nil {
@@ -960,7 +972,7 @@ func TestRun(t *testing.T) {
 	lens := []int{0, 1, 2, 3, 4, 5, 8, 9, 12, 13, 100, 200, 254, 255, 256, 257, 300, 600}
 	paths := []string{"", "/", "//", "/a", "a", "a/", "/a/b/c", "//a///b//", "LONG255", "LONG256", "BIG", "/x/" + strings.Repeat("y", 254), strings.Repeat("/k", 40)}
 	kindsA := []string{"Set", "Add", "Remove", "SetBytes", "AddBytes", "SetString", "AddString", "SetUint32", "AddUint32", "SetContentFormat", "SetObserve", "SetAccept", "SetPath", "SetLocationPath", "ResetOptionsTo", "Clone"}
-	kindsB := []string{"SetBytes", "AddBytes", "SetString", "AddString", "SetUint32", "AddUint32", "SetContentFormat", "SetObserve", "SetAccept", "Remove", "AddQuery", "SetETag", "AddETag", "SetPath", "ResetOptionsTo", "Clone", "Reset", "Recycle"}
+	kindsB := []string{"SetBytes", "AddBytes", "SetString", "AddString", "SetUint32", "AddUint32", "SetContentFormat", "SetObserve", "SetAccept", "Remove", "AddQuery", "SetETag", "AddETag", "SetPath", "ResetOptionsTo", "ResetToSelf", "Clone", "Reset", "Recycle"}
 	uints := []uint32{0, 1, 255, 256, 65535, 65536, 1<<24 - 1, 1 << 24, 1<<32 - 1, 42, 10000}
 	gen := func(rnd *rand.Rand, kinds []string, n int) []op {
 		ops := make([]op, n)
